@@ -269,10 +269,11 @@ class _SymClock:
         return getattr(time, n)
 
 
-def h_tid_monotonic(c1: int, c2: int, c3: int, c4: int, storage: str) -> None:
-    """k consecutive tpc_begin()s under arbitrary clock readings choose strictly increasing tids,
-    all later than the last committed one."""
-    for c in (c1, c2, c3, c4):
+def h_tid_monotonic(c0: int, c1: int, c2: int, c3: int, c4: int, storage: str, reopen: bool) -> None:
+    """Consecutive tpc_begin()s under arbitrary clock readings choose strictly increasing tids, all
+    later than the last committed one - also right after a close and reopen (c0 is the clock reading
+    the reopening storage sees)."""
+    for c in (c0, c1, c2, c3, c4):
         assume(0 <= c < 2 ** 63)
     import ZODB.BaseStorage as BS
     F = sys.modules['ZODB.FileStorage.FileStorage']
@@ -296,9 +297,17 @@ def h_tid_monotonic(c1: int, c2: int, c3: int, c4: int, storage: str) -> None:
                 mod.time = clk
             if 'TimeStamp' in mod.__dict__:
                 mod.TimeStamp = SymTimeStamp
-        if hasattr(s, '_ts'):
-            s._ts = SymTimeStamp(last)
+        if reopen:
+            s.close()
     try:
+        if reopen:
+            clk.vals = [c0, c0, c0, c0]      # every clock read during the open sees the same instant
+            s = env.filestorage()           # traced: __init__ derives the floor for new ids from the file
+        elif hasattr(s, '_ts'):
+            assume(c0 == 0)
+            s._ts = SymTimeStamp(last)
+        else:
+            assume(c0 == 0)
         clk.vals = [c1, c2, c3, c4]
         prev = last
         for i in range(4):
@@ -407,11 +416,11 @@ HARNESSES = [
                                                dict(base_kind='file', changes_kind='mapping', depth=2)])),
     Harness('tid_monotonic', h_tid_monotonic,
             decides='transaction ids strictly increase whatever the clock returns (stalls, steps back)',
-            symbolic='4 consecutive clock readings (free 63-bit integers)',
-            bounds='4 consecutive tpc_begin after history T1', oracle='strict increase, above the last committed tid',
-            code=['BaseStorage.tpc_begin', 'MappingStorage.tpc_begin'],
-            quick=dict(timeout=60, shards=shards(storage=['file', 'mapping'])),
-            thorough=dict(timeout=300, shards=shards(storage=['file', 'mapping']))),
+            symbolic='the clock reading at reopen and 4 consecutive clock readings (free 63-bit integers)',
+            bounds='4 consecutive tpc_begin after history T1, with and without close+reopen before', oracle='strict increase, above the last committed tid',
+            code=['BaseStorage.tpc_begin', 'MappingStorage.tpc_begin', 'FileStorage.__init__ (tid floor)', 'utils.newTid'],
+            quick=dict(timeout=80, shards=[dict(storage='file', reopen=False), dict(storage='file', reopen=True), dict(storage='mapping', reopen=False)]),
+            thorough=dict(timeout=300, shards=[dict(storage='file', reopen=False), dict(storage='file', reopen=True), dict(storage='mapping', reopen=False)])),
 ]
 
 MANIFEST = dict(
